@@ -78,6 +78,38 @@ def programs(tier):
     return out
 
 
+# module-level class bodies (they execute at import, so only values that evaluate are used): enum / NamedTuple / TypedDict / Protocol / dataclass / generic
+# bodies have checks of their own (duplicate enum members, field defaults, ...)
+CLASS_PRE = "import enum, dataclasses, typing\nfrom typing import NamedTuple, TypedDict, Protocol, Generic, TypeVar\nTT = TypeVar('TT')\n"
+CLASS_HEADS = ["class K{n}(enum.Enum):", "class K{n}(enum.IntEnum):", "class K{n}(enum.Flag):", "class K{n}(str, enum.Enum):", "class K{n}(NamedTuple):", "class K{n}(TypedDict):",
+               "class K{n}(Protocol):", "@dataclasses.dataclass\nclass K{n}:", "@dataclasses.dataclass(frozen=True)\nclass K{n}:", "class K{n}:", "class K{n}(Generic[TT]):", "class K{n}(int):",
+               "class K{n}(Exception):"]
+CLASS_VALUES = ["1", '"a"', "[1]", "[255, 0, 0]", '{{"k": 1}}', "{{1, 2}}", "(1, [2])", "None", "1.5", "()", "[]", "{{}}", "enum.auto()", "dataclasses.field(default=1)", "lambda self: 1", "len",
+                "int", "typing.Any", "b'x'", "True"]
+CLASS_BODIES = ["A = {v}", "A = {v}\n    B = {v}", "A = {v}\n    B = A", "A: int = {v}", "A: {v}", "A: int\n    B: int = {v}", "A = {v}, {v}", "A = B = {v}", "A = {v}\n    def m(self): return self.A",
+                "_ignore_ = ['T']\n    A = {v}", "__slots__ = ()\n    A = {v}", "A = {v}\n    A = {v}"]
+
+
+def class_programs():
+    out = []
+    n = 0
+    for head in CLASS_HEADS:
+        for body in CLASS_BODIES:
+            for v in CLASS_VALUES:
+                n += 1
+                out.append(CLASS_PRE + (head.format(n=n) + "\n    " + body.replace("{v}", v) + "\n").replace("{{", "{").replace("}}", "}"))
+    return out
+
+
+def _executes(src):
+    """module-level programs must import: run the candidate once in a scratch namespace"""
+    try:
+        exec(compile(src, "<c12-class>", "exec"), {"__name__": "c12_scratch"})
+        return True
+    except BaseException:
+        return False
+
+
 _PROGS = {}
 
 
@@ -93,6 +125,7 @@ def _progs(tier):
                 except (SyntaxError, ValueError, OverflowError):
                     continue
                 good.append(src)
+            good.extend(src for src in class_programs() if _executes(src))
         _PROGS[tier] = good
     return _PROGS[tier]
 
